@@ -377,7 +377,16 @@ pub fn exec_project(input: &Value) -> (Value, Value) {
         if let Some(d) = p.parent() {
             let _ = std::fs::create_dir_all(d);
         }
-        let _ = std::fs::write(&p, render_file(&f));
+        if f.get("symlink").and_then(|x| x.as_bool()).unwrap_or(false) {
+            // the source file is a symbolic link to a file kept outside the project directory (shared between crates)
+            let shared = root.join("shared");
+            let _ = std::fs::create_dir_all(&shared);
+            let target = shared.join(s(&f, "path").replace('/', "_"));
+            let _ = std::fs::write(&target, render_file(&f));
+            let _ = std::os::unix::fs::symlink(&target, &p);
+        } else {
+            let _ = std::fs::write(&p, render_file(&f));
+        }
     }
     let _ = std::fs::create_dir_all(&src);
     let relative = input["project"].get("relative").and_then(|x| x.as_bool()).unwrap_or(false);
@@ -620,9 +629,25 @@ fn emit_expr(rng: &mut Rng, ev_names: &[&str], type_names: &[String], locals_all
     json!({"k": "mcall", "recv": recv, "method": method, "args": args})
 }
 
+/// initialiser of an annotated `let`: the annotation decides the type, whatever the initialiser looks like
+fn typed_init(rng: &mut Rng, t: &str) -> Value {
+    match rng.below(7) {
+        0 => json!({"k": "call", "func": {"k": "path", "segs": ["Default", "default"]}, "args": []}),
+        1 => json!({"k": "call", "func": {"k": "path", "segs": ["std", "default", "Default", "default"]}, "args": []}),
+        2 => json!({"k": "call", "func": {"k": "path", "segs": [t, "default"]}, "args": []}),
+        3 => json!({"k": "call", "func": {"k": "path", "segs": ["serde_json", "from_str"]}, "args": [{"k": "lit", "text": "\"{}\"", "lit": "str"}]}),
+        4 => json!({"k": "mcall", "recv": {"k": "call", "func": {"k": "path", "segs": ["loader", "load"]}, "args": []}, "method": "unwrap", "args": []}),
+        _ => json!({"k": "call", "func": {"k": "path", "segs": ["make"]}, "args": []}),
+    }
+}
+
 fn wrap_emit(rng: &mut Rng, e: Value) -> Value {
     // documented placements: statement, let initialiser, under ? / .await, receiver of .unwrap()/.ok(), nested blocks
-    match rng.below(12) {
+    match rng.below(15) {
+        // initialiser of an annotated / named binding
+        12 => json!({"k": "let", "pat": "typed", "name": "sent_v", "ty": "Result<(), tauri::Error>", "init": e}),
+        13 => json!({"k": "let", "pat": "typed", "name": "_unit_v", "ty": "()", "init": {"k": "try", "e": e}}),
+        14 => json!({"k": "let", "pat": "ident", "name": "sent_r", "init": e}),
         0 | 1 => json!({"k": "expr", "e": {"k": "mcall", "recv": e, "method": "ok", "args": []}}),
         2 => json!({"k": "expr", "e": {"k": "mcall", "recv": e, "method": "unwrap", "args": []}}),
         3 => json!({"k": "expr", "e": {"k": "try", "e": e}}),
@@ -641,7 +666,7 @@ fn wrap_emit(rng: &mut Rng, e: Value) -> Value {
 
 /// one random project; `adversarial` lifts the SafeProject restrictions
 pub fn random_project(rng: &mut Rng, nfiles: usize, adversarial: bool, externs: &[&str]) -> Value {
-    let dirs = ["", "commands/", "models/", "a/b/c/", "target_x/", "x.target/"];
+    let dirs = ["", "commands/", "models/", "a/b/c/", "target_x/", "x.target/", "legacy.rs/", "commands/"];
     let mut type_names: Vec<String> = Vec::new();
     let mut items_per_file: Vec<Vec<Value>> = vec![Vec::new(); nfiles];
     let ntypes = 1 + rng.below(3 + nfiles);
@@ -651,7 +676,23 @@ pub fn random_project(rng: &mut Rng, nfiles: usize, adversarial: bool, externs: 
         let name = if rng.chance(1, 8) {
             (*rng.pick(&["TableSchema", "Path", "PathBuf", "Duration", "Value", "Params", "Channel0", "Result0", "OptionLike", "設定", "用户", "Ünit", "Ωmega"])).to_string() + if t % 2 == 0 { "" } else { "X" }
         } else {
-            format!("{}{}", rng.pick(&["User", "Order", "Item", "Config", "Event", "Status", "Mode"]), t)
+            format!("{}{}", rng.pick(&["User", "Order", "Item", "Config", "Event", "Status", "Mode", "DbConfig", "AppUser", "SubItem"]), t)
+        };
+        // names that contain another type's name as a proper prefix / suffix (`Config` / `DbConfig` / `ConfigItem`); the
+        // shorter one, defined later, refers to the longer one (`Config { db: DbConfig }`)
+        let mut forced_ref: Option<String> = None;
+        let name = if !type_names.is_empty() && rng.chance(1, 4) {
+            let longer = type_names.iter().find(|n| ["Db", "App", "Sub"].iter().any(|p| n.starts_with(p)) && !type_names.contains(&n[n.char_indices().nth(if n.starts_with("Db") { 2 } else { 3 }).unwrap().0..].to_string())).cloned();
+            match longer {
+                Some(l) => {
+                    let cut = if l.starts_with("Db") { 2 } else { 3 };
+                    forced_ref = Some(l.clone());
+                    l[cut..].to_string()
+                }
+                None => format!("{}Item", rng.pick(&type_names)),
+            }
+        } else {
+            name
         };
         if type_names.contains(&name) {
             continue;
@@ -705,6 +746,12 @@ pub fn random_project(rng: &mut Rng, nfiles: usize, adversarial: bool, externs: 
                 let ty = any_ty(rng, &type_names, 2, adversarial);
                 json!({"name": format!("{}{}", rng.pick(&field_names), k), "vis": rng.pick(&["pub", "", "pub(crate)"]), "ty": ty_json(&ty), "attrs": fa})
             }).collect();
+            let mut fields = fields;
+            if let Some(l) = &forced_ref {
+                if shape == "named" {
+                    fields.push(json!({"name": "linked", "vis": "pub", "ty": ty_json(&RTy::Named(l.to_string())), "attrs": []}));
+                }
+            }
             items_per_file[f].push(json!({"k": "struct", "name": name, "attrs": attrs, "shape": shape, "fields": fields}));
         }
         if serde {
@@ -773,7 +820,7 @@ pub fn random_project(rng: &mut Rng, nfiles: usize, adversarial: bool, externs: 
         let mut body: Vec<Value> = Vec::new();
         if rng.chance(1, 3) {
             let tn = if type_names.is_empty() { "String".to_string() } else { rng.pick(&type_names).clone() };
-            body.push(json!({"k": "let", "pat": "typed", "name": "local_v", "ty": tn, "init": {"k": "call", "func": {"k": "path", "segs": ["make"]}, "args": []}}));
+            body.push(json!({"k": "let", "pat": "typed", "name": "local_v", "ty": tn, "init": typed_init(rng, &tn)}));
             locals.push(("local_v".into(), tn));
         }
         for _ in 0..rng.below(3) {
@@ -792,7 +839,7 @@ pub fn random_project(rng: &mut Rng, nfiles: usize, adversarial: bool, externs: 
                 if rng.chance(1, 2) {
                     json!({"k": "let", "pat": "ident", "name": "msg_v", "init": {"k": "struct", "segs": [t]}})
                 } else {
-                    json!({"k": "let", "pat": "typed", "name": "msg_v", "ty": t, "init": {"k": "call", "func": {"k": "path", "segs": ["make"]}, "args": []}})
+                    json!({"k": "let", "pat": "typed", "name": "msg_v", "ty": t, "init": typed_init(rng, t)})
                 }
             };
             let use_it = |rng: &mut Rng, ev_names: &[&str]| -> Value {
@@ -860,7 +907,8 @@ pub fn random_project(rng: &mut Rng, nfiles: usize, adversarial: bool, externs: 
         if rng.chance(1, 2) {
             body.push(json!({"k": "let", "pat": "ident", "name": vname, "init": {"k": "call", "func": {"k": "path", "segs": ["compute"]}, "args": []}}));
         } else if !type_names.is_empty() {
-            body.push(json!({"k": "let", "pat": "typed", "name": vname, "ty": rng.pick(&type_names).clone(), "init": {"k": "call", "func": {"k": "path", "segs": ["make"]}, "args": []}}));
+            let tnn = rng.pick(&type_names).clone();
+            body.push(json!({"k": "let", "pat": "typed", "name": vname, "ty": tnn, "init": typed_init(rng, &tnn)}));
         }
         body.push(json!({"k": "expr", "e": {"k": "mcall", "recv": {"k": "mcall", "recv": {"k": "path", "segs": ["app"]}, "method": "emit",
             "args": [{"k": "lit", "text": "\"late-binding\"", "lit": "str", "value": "late-binding"}, {"k": "ref", "e": {"k": "path", "segs": [vname]}}]}, "method": "ok", "args": []}}));
@@ -885,6 +933,21 @@ pub fn random_project(rng: &mut Rng, nfiles: usize, adversarial: bool, externs: 
         let f = rng.below(nfiles);
         items_per_file[f].push(json!({"k": "fn", "name": "load_tri", "attrs": [attr("tauri::command")], "vis": "pub", "async": false,
             "params": [], "ret": ty_json(&named("TriA")), "body": [{"k": "other", "text": "todo!()"}]}));
+    }
+    // a plain function with the name of a command, in another file (a thin command wrapper delegating to a backend helper)
+    if nfiles >= 2 {
+        let cmd_sites: Vec<(usize, String)> = items_per_file.iter().enumerate().flat_map(|(fi, items)| {
+            items.iter().filter(|it| s(it, "k") == "fn" && arr(it, "attrs").iter().any(|a| s(a, "text").contains("command")))
+                .map(|it| (fi, s(it, "name"))).collect::<Vec<_>>()
+        }).collect();
+        for (fi, cname) in cmd_sites {
+            if rng.chance(1, 3) && !cname.starts_with("r#") {
+                let other = (fi + 1 + rng.below(nfiles - 1)) % nfiles;
+                items_per_file[other].push(json!({"k": "fn", "name": cname, "attrs": [], "vis": "pub(crate)", "async": false,
+                    "params": [raw_param("conn", "&Connection", "value_raw"), value_param("limit", &RTy::Prim("u32".into()), vec![])],
+                    "ret": null, "body": []}));
+            }
+        }
     }
     // decoys: helper fns (may emit events), impl blocks and inline modules with command-looking fns, misc items
     for f in 0..nfiles {
@@ -918,8 +981,9 @@ pub fn random_project(rng: &mut Rng, nfiles: usize, adversarial: bool, externs: 
     }
     let mut files: Vec<Value> = Vec::new();
     for (i, items) in items_per_file.into_iter().enumerate() {
-        files.push(json!({"path": format!("{}f{}.rs", dirs[i % dirs.len()], i), "items": items,
-                          "compact": rng.chance(1, 5), "shebang": rng.chance(1, 6)}));
+        let dir = if rng.chance(1, 2) { dirs[i % dirs.len()] } else { dirs[rng.below(dirs.len())] };
+        files.push(json!({"path": format!("{}f{}.rs", dir, i), "items": items,
+                          "compact": rng.chance(1, 5), "shebang": rng.chance(1, 6), "symlink": rng.chance(1, 7)}));
     }
     // layout decoys
     files.push(json!({"path": "target/debug/build/gen.rs", "items": [{"k": "fn", "name": "hidden_in_target", "attrs": [attr("tauri::command")], "vis": "pub", "async": false, "params": [], "ret": null, "body": []}]}));
